@@ -441,8 +441,83 @@ def rule_g(ctx: Context, R: Reporter, f: FuncInfo):
     R.analysed["C04.g:division/reshape sites scanned"] = n
 
 
+def rule_h(ctx: Context, R: Reporter, f: FuncInfo):
+    """C04.h  the log-weights that a consumer of the weight function hands out (returns) are the function's result,
+    not a scribbled-over copy of it: between the call and a return that mentions the result's name there is no
+    in-place modification of that array (augmented assignment, subscript store, out= argument, in-place method).
+    A re-binding `logw = logw[idx]` (row selection) is not a modification."""
+    from ..dataflow import _inplace_mutations
+
+    n = 0
+    for fi in ctx.prog.functions.values():
+        if fi is f:
+            continue
+        flow = None
+        for (call, tg) in ctx.cg.sites.get(fi.qualname, []):
+            if f not in tg:
+                continue
+            flow = flow or flow_of(fi.node)
+            cn = flow.node_containing(call)
+            if cn is None or cn.kind != "stmt" or not isinstance(cn.stmt, ast.Assign) or cn.stmt.value is not call:
+                continue
+            t0 = cn.stmt.targets[0]
+            name = t0.elts[0].id if isinstance(t0, ast.Tuple) and t0.elts and isinstance(t0.elts[0], ast.Name) else None
+            if name is None or name == "_":
+                continue
+            n += 1
+            cfg = flow.cfg
+            muts = [cfg.nodes[i] for i in _inplace_mutations(flow).get(name, [])]
+            muts += [nd for nd in cfg.stmt_nodes() if nd.kind == "stmt" and isinstance(nd.stmt, ast.AugAssign) and isinstance(nd.stmt.target, ast.Name) and nd.stmt.target.id == name]
+            rets = [nd for nd in cfg.stmt_nodes() if nd.kind == "stmt" and isinstance(nd.stmt, ast.Return) and nd.stmt.value is not None
+                    and any(isinstance(x, ast.Name) and x.id == name for x in ast.walk(nd.stmt.value))]
+            bad = [m for m in muts if cfg.reaches(cn.id, m.id) and any(cfg.reaches(m.id, r.id) for r in rets)]
+            R.check("C04.h", f"{fi.short}: the log-weights handed out are the weight function's result, unmodified", not bad, fi, bad[0].stmt if bad else cn.stmt,
+                    msg=f"{fi.short}: `{unparse(bad[0].stmt)[:60]}` modifies the array returned by {f.short} in place and `{name}` is returned afterwards: the log-weights handed out "
+                        f"are no longer beta*logL minus the log mixture density (they are offset / rescaled), and no longer sum to one" if bad else "",
+                    key=f"handed-out-logw-modified:{fi.short}")
+    R.floor("C04.h", "consumers binding the log-weights", n, 2)
+
+
+def rule_i(ctx: Context, R: Reporter, f: FuncInfo):
+    """C04.i  the weights are computed at the *requested* temperature: the temperature parameter of the weight
+    function is not re-bound to another value (snapped to a grid / to 1 near the end of the schedule, replaced by the
+    recorded temperature, ...).  A cast (float(b)) or a clip to exactly [0, 1] is the identity on the property's domain."""
+    bf = f.params[1] if len(f.params) > 1 else None
+    if bf is None:
+        raise AnalysisError("C04.i: weight function has no temperature parameter")
+    flow = flow_of(f.node)
+    n = 0
+    for nd in flow.cfg.stmt_nodes():
+        if nd.kind != "stmt":
+            continue
+        st = nd.stmt
+        tg = []
+        if isinstance(st, ast.Assign):
+            tg = [x for t in st.targets for x in ast.walk(t) if isinstance(x, ast.Name) and isinstance(x.ctx, ast.Store)]
+        elif isinstance(st, (ast.AugAssign, ast.AnnAssign)) and isinstance(st.target, ast.Name):
+            tg = [st.target]
+        if not any(t.id == bf for t in tg):
+            continue
+        n += 1
+        v = st.value if isinstance(st, (ast.Assign, ast.AnnAssign)) else None
+        ok = False
+        if isinstance(st, ast.Assign) and isinstance(v, ast.Call) and len(st.targets) == 1 and isinstance(st.targets[0], ast.Name):
+            nm = dotted(v.func)
+            if nm in ("float", "np.float64", "numpy.float64", "np.asarray", "np.asanyarray") and len(v.args) == 1 and norm_text(v.args[0]) == bf:
+                ok = True
+            if nm in ("np.clip", "numpy.clip") and len(v.args) == 3 and norm_text(v.args[0]) == bf and const_value(v.args[1]) in (0, 0.0) and const_value(v.args[2]) in (1, 1.0):
+                ok = True
+        R.check("C04.i", "the requested temperature is not replaced inside the weight function", ok, f, st,
+                msg=f"{f.short}: `{unparse(st)[:70]}` re-binds the requested temperature `{bf}`: log-weights and evidence are then those of another temperature than the one asked for "
+                    f"(beta*logL is formed with the replaced value)", key="temperature-rebound")
+    R.check("C04.i", "the temperature parameter reaches the numerator as given", True, f, f.node, key="temperature-scan")
+    R.analysed["C04.i:re-bindings of the temperature parameter"] = n
+
+
 def run(ctx: Context, R: Reporter):
     f = _weights_fn(ctx)
+    R.guard(rule_i, ctx, R, f)
+    R.guard(rule_h, ctx, R, f)
     R.guard(rule_g, ctx, R, f)
     R.guard(rule_f, ctx, R, f)
     R.guard(rule_a, ctx, R, f)
@@ -460,7 +535,7 @@ def rule_e(ctx: Context, R: Reporter, f):
 
 
 def variants():
-    from ..variants import Variant, alpha_rename, delete_stmt, insert_after, replace_expr, replace_stmt
+    from ..variants import Variant, alpha_rename, delete_stmt, insert_after, insert_before, replace_expr, replace_stmt
 
     sm = "tempest/state_manager.py"
     g = "StateManager.compute_logw_and_logz"
@@ -486,6 +561,10 @@ def variants():
         Variant("f-mixture-ratio-inverted", "bad", replace_stmt(sm, g, "log_mixture_weights = np.log(n_per_iter) - np.log(N_total)", "log_mixture_weights = np.log(N_total) - np.log(n_per_iter)"), ["C04.f"]),
         Variant("f-benign-commuted-sum", "benign", replace_expr(sm, g, "b + log_mixture_weights[None, :]", "log_mixture_weights[None, :] + b")),
         Variant("g-equal-batch-stride", "bad", insert_after(sm, g, "logl_per_iter = self._history.get('logl')", "which_iter = np.arange(len(logl_all)) // len(logl_per_iter[0])"), ["C04.g"], quick=True),
+        Variant("h-posterior-logw-shifted-in-place", "bad", replace_stmt("tempest/core.py", "SamplerCore.compute_posterior", "weights = np.exp(logw - np.max(logw))", "logw -= np.max(logw)\nweights = np.exp(logw)"), ["C04.h"], quick=True),
+        Variant("h-benign-shifted-copy", "benign", replace_stmt("tempest/core.py", "SamplerCore.compute_posterior", "weights = np.exp(logw - np.max(logw))", "shifted = logw - np.max(logw)\nweights = np.exp(shifted)"), quick=True),
+        Variant("i-snap-to-one", "bad", insert_before(sm, g, "A = logl_all * beta_final", "if 1.0 - beta_final < 1e-4:\n    beta_final = 1.0"), ["C04.i"], quick=True),
+        Variant("i-benign-float-cast", "benign", insert_before(sm, g, "A = logl_all * beta_final", "beta_final = float(beta_final)"), quick=True),
         Variant("benign-rename-b", "benign", alpha_rename(sm, g, "b_weighted", "comp"), quick=True),
         Variant("benign-inline-A", "benign", replace_stmt(sm, g, "logw = A - B", "logw = beta_final * logl_all - B")),
         Variant("benign-log-ratio", "benign", replace_stmt(sm, g, "log_mixture_weights = np.log(n_per_iter) - np.log(N_total)", "log_mixture_weights = np.log(n_per_iter / N_total)")),
